@@ -17,7 +17,7 @@ for d in seeded/C*/; do
   res=$(tools/try_mutant.sh $PWD/$d/patch.diff $(fam $id) 2>&1 | grep -o '^\[C[0-9]* rc=[0-9]*\][^#]*' | sed 's/VIOLATION property=[A-Z0-9]* replay=[^ ]*//; s/KNOWN-FINDING:.*//' | tr '\n' ' ')
   echo "seeded/$id | $res" >> $out
 done
-for pair in "D3:5c6fc3e:C10" "D4:2f27572:C14" "D1:2d23491:C03" "D2:37e706b:C08" "K2:8e011a4:C08" "D5:37d705b:C15" "D6:6ad5238:C16" "D7:4ebb98e:C14" "D8:89c4979:C20" "D9:1598ea2:C06" "D10:c3a11a8:C17" "D11:6ab051a:C09" "D12:1cc5135:C20" "D13:80f8a82:C03" "D14:2b5f5ad:C05" "D15:80974b0:C14" "D16:634aebd:C13" "D17:8fa58a9:C19" "D18:580f25e:C19" "D19:4a9a541:C05"; do
+for pair in "D3:5c6fc3e:C10" "D4:2f27572:C14" "D1:2d23491:C03" "D2:37e706b:C08" "K2:8e011a4:C08" "D5:37d705b:C15" "D6:6ad5238:C16" "D7:4ebb98e:C14" "D8:89c4979:C20" "D9:1598ea2:C06" "D10:c3a11a8:C17" "D11:6ab051a:C09" "D12:1cc5135:C20" "D13:80f8a82:C03" "D14:2b5f5ad:C05" "D15:80974b0:C14" "D16:634aebd:C13" "D17:8fa58a9:C19" "D18:580f25e:C19" "D19:4a9a541:C05" "D20:6b43f3a:C14"; do
   IFS=: read name commit id <<< "$pair"
   res=$(tools/try_mutant.sh -R:$commit $(fam $id) 2>&1 | grep -o '^\[C[0-9]* rc=[0-9]*\]' | tr '\n' ' ')
   echo "revert-$name($commit) | $res" >> $out
